@@ -1695,16 +1695,10 @@ func (n *node) spawn(factory gen.ProcessFactory, options gen.ProcessOptionsExtra
 		n.names.Delete(p.name)
 		// make sure to notify children that might have been spawned
 		// (during ProcessInit callback) with the enabled LinkParent option
-		messageExit := gen.MessageExitPID{
-			PID:    p.pid,
-			Reason: err,
-		}
-		linkTargets, _ := n.targetManager.CleanupConsumer(p.pid)
-		for _, target := range linkTargets {
-			if pid, ok := target.(gen.PID); ok {
-				n.sendExitMessage(p.pid, pid, messageExit)
-			}
-		}
+		// they hold a link on this process, so they are the consumers of it
+		n.RouteTerminatePID(p.pid, err)
+		// drop the links and monitors this process created itself
+		n.targetManager.CleanupConsumer(p.pid)
 
 		// terminate meta process that spawned during initialization
 
